@@ -73,7 +73,7 @@ fn agent_body(id: usize, prog: Vec<Cmd>, db: Database, kss: Vec<Keyspace>) {
                 };
                 match r { Ok(()) => "ok".to_string(), Err(e) => format!("err:{e:?}") }
             }
-            Cmd::Snap => { IN_SNAP.with(|s| s.set(true)); let s = db.snapshot(); IN_SNAP.with(|s| s.set(false)); let i = s.seqno(); snap = Some(s); format!("view={i}") }
+            Cmd::Snap => { snap = None; /* the old snapshot goes first: no overlap that a concurrent GC could observe */ IN_SNAP.with(|s| s.set(true)); let s = db.snapshot(); IN_SNAP.with(|s| s.set(false)); let i = s.seqno(); snap = Some(s); format!("view={i}") }
             Cmd::Read(k, key) => match &snap { Some(s) => match s.get(&kss[*k], key) { Ok(v) => show(&v.map(|x| x.to_vec())), Err(e) => format!("err:{e:?}") }, None => "noview".into() },
             Cmd::ReadTop(k, key) => match kss[*k].get(key) { Ok(v) => show(&v.map(|x| x.to_vec())), Err(e) => format!("err:{e:?}") },
             Cmd::Rotate(k) => match kss[*k].rotate_memtable() { Ok(b) => format!("rotated={b}"), Err(e) => format!("err:{e:?}") },
